@@ -35,8 +35,8 @@ Ev(ev, t, b, res, lm) ==
    total |-> lm.total, waiting |-> Len(lm.queue)]
 Feed(e) == /\ pst' = LimApply(pst, e).p
            /\ pbad' = pbad \cup LimApply(pst, e).bad
-H(t, c) == [w |-> "t", t |-> t, c |-> c, at |-> K.nh]
-HE(t, c) == [w |-> "e", t |-> t, c |-> c, at |-> K.nh]
+H(t, c) == [w |-> "t", t |-> t, c |-> c, at |-> K.nh, cyc |-> K.cycle]
+HE(t, c) == [w |-> "e", t |-> t, c |-> c, at |-> K.nh, cyc |-> K.cycle]
 ResOf(r) == IF ~IsExc(r) THEN "ok" ELSE IF IsCancel(r) THEN "cancelled" ELSE "error"
 HasSelf(h) == h \in {1, 3}
 HasForeign(h) == h \in {2, 3}
